@@ -23,7 +23,11 @@ RULE = ("seeded runs; a run = one product on simfs/local storage opened once, 4 
         "uniform random with a switch probability, PCT priorities, and <=3 forced line-level "
         "pre-emptions inside ceos_alos2 frames); each "
         "schedule is one evaluation; distinct key = (scenario, digest of the actor order at all "
-        "decision points)")
+        "decision points); the first %d (quick) / %d (thorough) runs are SYSTEMATIC instead: a tiny "
+        "scenario (2 loaders, one short selection each) whose interleavings at the simulator's "
+        "decision points are enumerated completely, depth-first over the scheduler's choice tree "
+        "(cap 400 / 6000 schedules per run; counters systematic-sets-complete / -capped)"
+        % (4, 48))
 ASSUMPTIONS = [
     "threads are real Python threads parked and released one at a time; pre-emption happens only "
     "at simulator-owned points (every storage operation, every contended lock acquire, chosen "
@@ -38,7 +42,12 @@ def n_runs(tier):
     return 320 if tier == "quick" else 3000
 
 
+SYSTEMATIC_RUNS = {"quick": 4, "thorough": 48}
+
+
 def generate(rng, tier, index):
+    if index < SYSTEMATIC_RUNS[tier]:
+        return _generate_systematic(rng, tier)
     many = rng.random() < 0.25
     wp = world.gen_world_plan(rng, backends=("simfs", "simfs", "simfs_opt", "local"),
                               max_images=3, max_lines=16, max_pixels=8,
@@ -94,6 +103,57 @@ def generate(rng, tier, index):
         ["random", "random", "pct", "line"]
     return {"world": wp, "rpc": r, "sets": sets, "schedules": k,
             "sched_seed": rng.randrange(2**31), "modes": modes}
+
+
+def _generate_systematic(rng, tier):
+    """a tiny scenario (2 loaders, one short selection each) whose interleavings at the
+    simulator's decision points are enumerated COMPLETELY (depth-first over the scheduler's choice
+    tree, capped) instead of sampled"""
+    wp = world.gen_world_plan(rng, backends=("simfs",), max_images=2, max_lines=4, max_pixels=3,
+                              large=0.0, huge=0.0, n_images=rng.choice([1, 2]))
+    n_img = len(wp["images"])
+    scenario = rng.choice(["same-variable", "pickled-copy"] + (["different-images"] * 2
+                                                              if n_img > 1 else []))
+    actors = []
+    for a in range(2):
+        img = a % n_img if scenario == "different-images" else 0
+        im = wp["images"][img]
+        n = im["lines"]
+        sel = {"kind": "isel", "rows": rng.choice([{"slice": [None, None, None]}, {"int": 0},
+                                                   {"int": n - 1}, {"slice": [0, max(n // 2, 1), 1]},
+                                                   {"slice": [None, None, -1]}])}
+        actors.append({"image": img, "copy": (a % 2) if scenario == "pickled-copy" else 0,
+                       "selections": [sel]})
+    n0 = wp["images"][0]["lines"]
+    return {"world": wp, "rpc": rng.choice([max(n0 // 2, 1), n0, 1024]),
+            "sets": [{"scenario": scenario, "actors": actors}], "schedules": 0,
+            "sched_seed": 0, "modes": ["random"],
+            "systematic": 400 if tier == "quick" else 6000}
+
+
+def _schedules(plan, si, budget, stats):
+    """yields (j, scheduler, mode); the consumer runs the scheduler before asking for the next"""
+    if plan.get("systematic") and plan.get("schedule") is None:
+        stack = [[]]
+        j = 0
+        while stack and j < plan["systematic"]:
+            prefix = stack.pop()
+            sched = Sched(script=prefix, max_steps=budget)
+            yield j, sched, "systematic"
+            dec = sched.decisions
+            for i in range(len(prefix), len(dec)):
+                runnable, chosen = dec[i]
+                for alt in runnable:
+                    if alt != chosen:
+                        stack.append([d[1] for d in dec[:i]] + [alt])
+            j += 1
+        key = "systematic-sets-complete" if not stack else "systematic-sets-capped"
+        stats[key] = stats.get(key, 0) + 1
+        return
+    for j in range(plan["schedules"]):
+        rng = random.Random(plan["sched_seed"] * 1000003 + si * 1009 + j)
+        sched, mode = _sched_for(plan, rng, plan.get("schedule"), budget=budget)
+        yield j, sched, mode
 
 
 def _sched_for(plan, rng, script=None, budget=5000):
@@ -162,12 +222,9 @@ def execute(plan):
             if len(jobs) < 2:
                 bump("actor-set-skipped")
                 continue
-            for j in range(plan["schedules"]):
-                if only is not None and only[1] != j:
+            for j, sched, mode in _schedules(plan, si, 2000 + 10 * solo_events, stats):
+                if only is not None and only[1] != j and not plan.get("systematic"):
                     continue
-                rng = random.Random(plan["sched_seed"] * 1000003 + si * 1009 + j)
-                sched, mode = _sched_for(plan, rng, plan.get("schedule"),
-                                         budget=2000 + 10 * solo_events)
                 for ai, good in enumerate(jobs):
                     def work(good=good):
                         return [select.apply(da, sel).load().values for da, sel, _ in good]
